@@ -2,7 +2,7 @@
 from ..ir import AnalysisBroken, strip_targs, qmatch
 from ..graph import Graph
 from ..expr import access_path, path_str, held_locks, reaching_defs, norm_cond, origins, leaves, defs_in_node
-from .common import strip_casts, short, comparison
+from .common import strip_casts, short, comparison, same_class_inline, loops_over, loop_visits_every_element
 from . import c04, c08
 
 UNITS = ['sdk/src/logs/logger.cc', 'sdk/src/logs/read_write_log_record.cc', 'sdk/src/logs/multi_recordable.cc',
@@ -29,7 +29,8 @@ NOT_DECIDED = 'value equality at export; that every argument combination compile
 
 def rule_r2(ck, prog, rule='C13.R2'):
     f = prog.function('sdk::logs::Logger::CreateLogRecord')
-    g = Graph(prog, f, inline=None, sync_lambdas=False)
+    # (a correlation block moved into a private / file-local helper is inlined)
+    g = Graph(prog, f, inline=same_class_inline(prog, f.cls), sync_lambdas=False, max_depth=3)
     rd = reaching_defs(g)
     setters = {'SetTraceId': 'trace_id', 'SetSpanId': 'span_id', 'SetTraceFlags': 'trace_flags'}
     pts = {s: [p for p in g.points if p.n is not None and p.n['k'] == 'call' and p.n.get('virt') and strip_targs(p.n.get('c', '')).rsplit('::', 1)[-1] == s] for s in setters}
@@ -37,9 +38,10 @@ def rule_r2(ck, prog, rule='C13.R2'):
     branches = []
     for p in g.points:
         for (q, lab) in p.succ:
-            if lab and isinstance(lab[0], int) and lab[1] is f:
-                core, pol = norm_cond(f, lab[0])
-                cn = f.nodes[core]
+            if lab and isinstance(lab[0], int):
+                ff = lab[1]
+                core, pol = norm_cond(ff, lab[0])
+                cn = ff.nodes[core]
                 if cn['k'] == 'ref' and cn.get('sk') == 'local' and 'shared_ptr<' in (cn.get('t') or ''):
                     truth = lab[2] if pol else (not lab[2])
                     if truth is True:
@@ -56,8 +58,9 @@ def rule_r2(ck, prog, rule='C13.R2'):
             ok = bool(mine) and g.exit.id not in r
             if ok:
                 a = mine[0].n['args'][0]
-                names = [strip_targs(f.nodes[i].get('c', '')).rsplit('::', 1)[-1] for i in f.subtree(a) if f.nodes[i]['k'] == 'call']
-                src_ok = getter in names and any(f.nodes[i]['k'] == 'ref' and f.nodes[i].get('id') == cn.get('id') for i in f.subtree(a))
+                mf = mine[0].f
+                names = [strip_targs(mf.nodes[i].get('c', '')).rsplit('::', 1)[-1] for i in mf.subtree(a) if mf.nodes[i]['k'] == 'call']
+                src_ok = getter in names and any(mf.nodes[i]['k'] == 'ref' and mf.nodes[i].get('id') == cn.get('id') for i in mf.subtree(a))
                 ck.verdict(src_ok, rule, f, '%s:%s' % (kind, s), mine[0].n, '%s(%s())' % (s, getter) if src_ok else '%s is not fed from the active %s\'s %s()' % (s, kind, getter))
             else:
                 ck.violation(rule, f, '%s:%s' % (kind, s), cn,
@@ -150,27 +153,28 @@ def rule_r4_processor(ck, prog, rule='C13.R4'):
     rec = prog.record('sdk::logs::MultiLogRecordProcessor')
     for name in ('OnEmit', 'MakeRecordable', 'ForceFlush', 'Shutdown'):
         f = [x for x in prog.funcs.values() if x.cls == rec['qn'] and x.name == name][0]
-        loops = [n for n in f.nodes if n['k'] == 'forrange' and access_path(f, n['range']) == ('this', 'processors_')]
+        loops = loops_over(f, lambda ap: ap == ('this', 'processors_'))
         ok = len(loops) == 1
         why = 'no loop over all processors'
         if ok:
-            body = [f.nodes[i] for i in f.subtree(loops[0]['body'])]
-            early = [n for n in body if n['k'] in ('break', 'return', 'GotoStmt')]
-            calls = [n for n in body if n['k'] == 'call' and n.get('virt') and strip_targs(n.get('c', '')).rsplit('::', 1)[-1] == name]
-            ok = not early and len(calls) == 1
-            why = 'the loop can exit early or does not call %s on each processor' % name
-            if ok and name == 'OnEmit':
-                # the only condition allowed around the child call is the test of the released child record
-                pm = f.parent_map()
-                x = calls[0]['i']
-                while x in pm and pm[x] != loops[0]['i']:
-                    x = pm[x]
-                    if f.nodes[x]['k'] == 'if':
-                        core, pol = norm_cond(f, f.nodes[x]['cnd'])
-                        cn = strip_casts(f, core)
-                        if not (cn['k'] == 'ref' and cn.get('sk') == 'local'):
-                            ok = False
-                            why = 'a processor can be skipped on a condition other than "no record for it"'
+            g = Graph(prog, f, inline=None, sync_lambdas=False)
+            body = set(f.subtree(loops[0]['body']))
+            calls = [p for p in g.points if p.n is not None and p.f is f and p.n['i'] in body and p.n['k'] == 'call' and p.n.get('virt') and
+                     strip_targs(p.n.get('c', '')).rsplit('::', 1)[-1] == name]
+
+            def no_record_edge(a, b, lab):
+                # (OnEmit) the only condition allowed around the child call is the test of the released child record: its null edge
+                if name != 'OnEmit' or not lab or not isinstance(lab[0], int):
+                    return False
+                core, pol = norm_cond(lab[1], lab[0])
+                cn = strip_casts(lab[1], core)
+                if cn['k'] == 'ref' and cn.get('sk') == 'local' and 'unique_ptr' in (cn.get('t') or ''):
+                    return (lab[2] if pol else not lab[2]) is False
+                return False
+            why = loop_visits_every_element(g, f, loops[0], calls, allowed_exit=no_record_edge if name == 'OnEmit' else None)
+            ok = why is None and len(calls) == 1
+            if why is None and not ok:
+                why = 'the loop does not call %s exactly once on each processor' % name
         ck.verdict(ok, rule, f, 'processors:%s' % name, loops[0] if loops else None, 'every processor, no early exit' if ok else why)
 
 
